@@ -46,7 +46,10 @@ def generate(mod, only=None):
             fn = extract.find_def(c.file, c.source)
             body = extract.body_of(fn)
             if c.fragment:
-                body = c.fragment(body)
+                try:
+                    body = c.fragment(body)
+                except AssertionError as e:
+                    raise LookupError(str(e) or "fragment selector failed") from None
             rep.fingerprint = extract.fingerprint(body)
             obs = eng.verify(c, body, contracts)
             rep.obligations = obs
